@@ -28,8 +28,9 @@ pub fn cfg_strategy() -> impl Strategy<Value = SutConfig> {
         any::<bool>(),
         prop_oneof![3 => Just(false), 1 => Just(true)],
         prop_oneof![2 => Just(false), 1 => Just(true)],
+        prop::bool::weighted(0.2),
     )
-        .prop_map(|((k, m, phi_pct), n_signers, cardano_database, cardano_transactions, cardano_stake_distribution)| SutConfig {
+        .prop_map(|((k, m, phi_pct), n_signers, cardano_database, cardano_transactions, cardano_stake_distribution, zero_stake_party)| SutConfig {
             k,
             m,
             phi_pct,
@@ -37,6 +38,7 @@ pub fn cfg_strategy() -> impl Strategy<Value = SutConfig> {
             cardano_database,
             cardano_transactions,
             cardano_stake_distribution,
+            zero_stake_party,
         })
 }
 
@@ -145,6 +147,8 @@ pub fn scripted() -> Vec<Case> {
                 cardano_database: true,
                 cardano_transactions: n == 5,
                 cardano_stake_distribution: n == 3,
+                // one scripted configuration per parameter set has a registered party without stake
+                zero_stake_party: n == 5,
             };
             let full = (1u16 << n) - 1;
             let reg = |mask: u16, keygen: u8| Op::Register { mask, keygen, when: RegEpoch::Current };
@@ -171,7 +175,7 @@ pub fn scripted() -> Vec<Case> {
     }
     // every signed entity type: its open message expires while it is being signed, late signatures reach the quorum,
     // it must never be sealed; then a chain roll-back that returns to a beacon that is already certified
-    let cfg = SutConfig { k: 5, m: 100, phi_pct: 95, n_signers: 3, cardano_database: true, cardano_transactions: true, cardano_stake_distribution: true };
+    let cfg = SutConfig { k: 5, m: 100, phi_pct: 95, n_signers: 3, cardano_database: true, cardano_transactions: true, cardano_stake_distribution: true, zero_stake_party: false };
     let full = 0b111u16;
     let reg = Op::Register { mask: full, keygen: 0, when: RegEpoch::Current };
     let mut ops = vec![Op::Tick(1), reg.clone(), Op::EpochUp(1), Op::Tick(3), reg.clone()];
